@@ -62,6 +62,12 @@ def gen_unit(r, i, tier):
     if not adaptive:
         k = int(r.integers(0, c["n_steps"]))
         c["beta"] = k / c["n_steps"]                     # a reachable fixed-schedule temperature
+        if i % 5 == 3:
+            # ... or a temperature OFF the grid (an adaptive run's checkpoint continued with a fixed schedule), also one within half a
+            # grid step of 1: the next temperature is the next grid point above it, and never above 1
+            n_ = c["n_steps"]
+            c["beta"] = float(r.choice([r.uniform(0, 1), 1 - r.uniform(0, 0.5) / n_, 1 - 1e-9, (k + 0.5) / n_ if k + 0.5 < n_ else 0.5]))
+            c["off_grid"] = True
     return c
 
 
@@ -421,6 +427,43 @@ def check_runs(chk, cfgs):
                 chk.disagree("smcloop.beta", case, m["beta"], betas)
 
 
+def check_reuse_after_resume(chk, quick):
+    """ONE sampler object first continues a checkpoint (of a run with or without a step floor) and is then used for a fresh run with OTHER
+    schedule options: the fresh run's schedule is the one a new object produces with those options - the floor restored from the checkpoint
+    belongs to the resumed run only"""
+    firsts = [{"max_n_steps": 4}, {"min_step": 0.05}, {}, {"max_n_steps": 6}]
+    seconds = [{}, {"min_step": 0.3}, {"min_step": 0.45}, {"max_n_steps": 5}]
+    for j in range(6 if quick else 32):
+        base = {"seed": 800 + j, "n_samples": 16, "dims": 2, "like_width": float((0.2, 0.4)[j % 2]), "kernel_steps": 2, "checkpoint_every": 1}
+        cfg1 = dict(base, **firsts[j % 4])
+        cfg3 = dict(base, seed=base["seed"] + 50, **seconds[(j // 2) % 4])
+        cfg3.pop("checkpoint_every")
+        case = {"level": "reuse_after_resume", "first_run_then_resumed": cfg1, "fresh_run_on_the_same_object": cfg3}
+        chk.count("reuse_after_resume")
+        chk.case(None, json.dumps(case))
+        r1 = smcrun.run_smc(cfg1, record_checkpoints=True, watchdog_iters=250)
+        if r1["status"] != "done" or len(r1["ckpts"]) < 2:
+            continue
+        r2 = smcrun.resume_smc(cfg1, r1["ckpts"][min(1, len(r1["ckpts"]) - 2)]["bytes"], watchdog_iters=250)
+        if r2["status"] != "done":
+            continue
+        r3 = smcrun.run_smc(cfg3, reuse=r2, watchdog_iters=250)
+        ref = smcrun.run_smc(cfg3, watchdog_iters=250)
+        sig = {"level": "run", "mode": "reuse_after_resume"}
+        if ref["status"] != "done":
+            continue
+        if r3["status"] != "done":
+            chk.fail("no valid option combination raises", case, f"fresh run on an object that had resumed a checkpoint: {r3.get('exc')!r}", {**sig, "clause": "raise"})
+            continue
+        b3, bref = [float(b) for b in r3["sampler"].history.beta], [float(b) for b in ref["sampler"].history.beta]
+        ms = cfg3.get("min_step")
+        if ms is not None and any(y < min(1.0, x + ms) - 1e-15 for x, y in zip([0.0] + b3, b3)):
+            chk.fail("minimum step honoured", case, f"requested min_step={ms}: schedule {b3}", {**sig, "clause": "floor"})
+        elif b3 != bref:
+            chk.fail("minimum step honoured", case, f"schedule of the fresh run on the reused object {b3[:6]} differs from the schedule a new object produces with the same options {bref[:6]}",
+                     {**sig, "clause": "floor", "reuse": True})
+
+
 def ref_eff(pop, b0, t):
     lw = pop["ll"] + pop["lp"] - pop["lq"]
     a = (t - b0) * lw
@@ -486,6 +529,7 @@ def run(chk: core.Check):
         check_units(chk, units[i:i + 400])
     runs = corpus_runs() + [gen_run(r, i, chk.tier) for i in range(40 if quick else 600)]
     check_runs(chk, runs)
+    check_reuse_after_resume(chk, quick)
 
     def search():
         sub = core.Check(chk.pid, chk.tier, chk.seed)
